@@ -8,7 +8,7 @@ core.register("C09", "Props.C09", "theories/Props/C09.vo",
                "C09_append_fixed_fields", "C09_open_refuses", "C09_middle_missing",
                "C09_refuted_length_flip_in_newest_chunk", "C09_refuted_refused_open_truncates_older_chunk"])
 
-AFTER = "G ; R 0 100000 ; K ; V 4000000000 1 ; F 1 ; I ; K ; X 100000 1073741824 4 1073741824 1 64 ; G ; R 0 100000"
+AFTER = "G ; R 0 100000 ; K ; A ; V 4000000000 1 ; F 1 ; I ; K ; X 100000 1073741824 4 1073741824 1 64 ; G ; R 0 100000"
 
 
 def parse_disk(field):
@@ -133,6 +133,16 @@ def run_C10(ctx):
                 # writes continue and a second restart agrees: last two fields are stat and read after X
                 if why is None and not (f[-2].startswith("stat") and f[-1].startswith("read")):
                     why = "writes or the second restart after recovery failed: " + " ; ".join(f[4:])[:200]
+                # ... and they continue into a well-formed journal: every file still starts with a state snapshot
+                if why is None and len(f) > 8 and f[8].startswith("disk "):
+                    for fid2, d2 in parse_disk(f[8]):
+                        try:
+                            rs2 = pydec.decode_all(d2)
+                        except Exception:
+                            rs2 = None
+                        if not rs2 or rs2[0][0][0] != "S":
+                            why = "after recovery and one more write, chunk file %d does not start with a state snapshot" % fid2
+                            break
         else:
             if not f[0].startswith("openerr"):
                 why = "truncation disabled and the tail is incomplete/zero, but open answered " + f[0]
@@ -233,6 +243,14 @@ def run_C09(ctx):
             cases.append(img_case(cfg, disk[:fi] + disk[fi + 1:], "G ; R 0 100000"))
             meta.append(dict(img=im, kind="missing", file=fi))
             ctx.count("middle_chunk_removed")
+            # the same with the newest file record-less or torn inside its head (what a crash
+            # during chunk creation leaves): the hole must still be reported
+            lid, ldata = disk[-1]
+            for cut in (0, 1, 7, len(pydec.decode_all(ldata)[0:1]) and pydec.decode_all(ldata)[0][2] - 1):
+                d3 = disk[:fi] + disk[fi + 1:-1] + [(lid, ldata[:cut])]
+                cases.append(img_case(cfg, d3, "G ; R 0 100000"))
+                meta.append(dict(img=im, kind="missing", file=fi, newest_cut=cut, disk=d3))
+                ctx.count("middle_chunk_removed_and_newest_torn")
     impl = C.run_impl(cases, ctx.wd, "flips")
     model = C.run_model(cases, ctx.wd, "flips")
     core.compare(ctx, "recover-single-byte-sweep", cases, impl, model)
@@ -242,11 +260,15 @@ def run_C09(ctx):
         im = m["img"]
         why, cls = None, None
         if m["kind"] == "missing":
-            d2 = im["disk"][: m["file"]] + im["disk"][m["file"] + 1:]
+            d2 = m.get("disk") or (im["disk"][: m["file"]] + im["disk"][m["file"] + 1:])
+            if "newest_cut" in m and m["file"] == len(im["disk"]) - 2:
+                # the chunk right before the torn newest file is gone: what remains is an intact
+                # older journal plus a record-less newest file whose name no longer fits
+                pass
             if not f[0].startswith("openerr"):
                 why = "a middle chunk file is missing but open answered " + f[0]
-            elif parse_disk(f[1]) != d2:
-                why = "a refused open modified the directory"
+            elif parse_disk(f[1])[:-1] != d2[:-1]:
+                why = "a refused open modified a chunk file other than the newest"
         else:
             rk, off, rl, res = classify_flip(im, m["file"], m["pos"], m["alt"])
             ctx.count("flip_%s_%s" % (rk, "newest" if m["newest"] else "older"))
@@ -267,7 +289,7 @@ def run_C09(ctx):
                         cls = "F6-refused-open-truncates-older-chunk"
         if why:
             bad += 1
-            rp = dict(kind="image", case=c[:8000], mutation={k: v for k, v in m.items() if k not in ("img", "alt")}, observed=a[:600])
+            rp = dict(kind="image", case=c[:8000], mutation={k: v for k, v in m.items() if k not in ("img", "alt", "disk")}, observed=a[:600])
             if cls:
                 rp["class"] = cls
             if bad <= 2000:
